@@ -36,7 +36,7 @@ CHECKS = {
  "C15": ("exploration", "§5 C15", "online well-formedness scanner of every changed account after every leg (reference codec, key layouts, role duplicates, counter >= max issued) + full scan at quiescence",
          "Held on long random walks and on EVERY operation sequence up to depth 3 (quick) / 4 (thorough) over 36 templates in a small universe."),
  "C16": ("exploration", "§5 C16", "schedule-sensitivity oracle: per-field consumption deltas under 22 single-field perturbations applied through the real factory.GasScheduleChange + absolute price formula + rejected-schedule and change-sequence oracles",
-         "Held on every sender-side scenario of the library (15 priced functions x sizes x shard relation x attached call)."),
+         "Held on every sender-side scenario of the library (15 priced functions x sizes x shard relation x call types x attached call) except one recorded open finding (known_findings.json: asynchronous ClaimDeveloperRewards by a same-shard contract owner consumes all gas), which is printed as KNOWN-FINDING."),
  "C17": ("fault_enumeration", "§5 C17", "fault injection at the dependency choke point: every k-th injectable dependency call of every scenario fails once; oracle: nil output and non-nil error",
          "Complete enumeration of single fault points over the scenario library (every function x leg x variant); double faults and walk-leg faults in addition."),
  "C18": ("exploration", "§5 C18", "IsActive of all 23 functions vs reference after every notification of exhaustively enumerated epoch sequences; registry vs literal name list; per-name binding probes with the name-keyed effect monitors",
@@ -90,7 +90,7 @@ def main():
         "engines": [{"name": "vcheck", "path": "/verif/cmd/vcheck", "serves_properties": sorted(CHECKS.keys()),
                      "kind_free_text": "Go binary: mini-node driver over harness-implemented dependencies, online monitors per property, child process per batch; race build for C19"}],
         "checks": checks,
-        "notes": "Every check: exit 0 held on everything explored; exit 1 + VIOLATION line; exit 2 + INCONCLUSIVE line (coverage floor not met, watchdog, harness failure). VERIF_SEED selects the PRNG streams. known_findings.json lists fixed defects (suppress nothing).",
+        "notes": "Every check: exit 0 held on everything explored; exit 1 + VIOLATION line; exit 2 + INCONCLUSIVE line (coverage floor not met, watchdog, workload setup failure, harness failure). VERIF_SEED selects the PRNG streams. known_findings.json lists the eight repaired defects (fixed: entries, suppress nothing) and one open finding of C16 (suppressed by a signature that contains the scenario name). seeded/ holds the 145 seeded changes used to validate the monitors (DESIGN.md section 7).",
         "not_applicable": na,
     }
     json.dump(m, open(os.path.join(root, "MANIFEST.json"), "w"), indent=1)
